@@ -149,7 +149,8 @@ class C10(Check):
         "default-less field is rejected by validate(strict) and by the strict writer. Non-trivial = mutated datum or "
         "non-default options. Distinct by digest."
     )
-    assumptions = ["float-typed leaves representable in the target width", "tuples of length != 2 at union positions are not generated"]
+    assumptions = ["float-typed leaves representable in the target width", "tuples of length != 2 at union positions are not generated",
+                   "data are built from the Python types the statement lists; look-alike number types (fractions.Fraction, numpy scalars: fastavro accepts numbers.Integral / numbers.Real by design) are outside the domain"]
     required_labels = ["expected:True", "expected:False", "strict", "raise_errors", "no-tuple-notation", "rejected-by-writer", "accepted-roundtrip",
                        "mut:wrong-type", "mut:out-of-range", "mut:bool-for-int", "mut:wrong-fixed-size", "mut:unknown-symbol", "mut:non-string-key", "mut:missing-field", "mut:wrong-hint", "mut:wrong-type-hint", "strict-missing-nullable", "appending-writer", "logical-values", "logical-generated", "logical-by-name", "validate_many:several", "rejected-by-writer-function"]
     quick = (5000, 1)
